@@ -18,6 +18,12 @@ PROGS = dict(w=[dict(op='PushManifest', r='r1', t='t1', c='idx', mt='other'), di
              u=[dict(op='Commit', r='r1', u='u1', dd='b1')],
              v=[dict(op='Write', r='r1', u='u1', data=[2]), dict(op='GetBlob', r='r1', c='b1')])
 FINAL = [dict(op='GetBlob', r='r1', c='b1'), dict(op='GetTag', r='r1', t='t1'), dict(op='UpSize', r='r1', u='u1')]
+# ProgCC: two committers on one upload with a write in between, and read-backs of both blobs
+SETUP_CC = [dict(op='PushBlobChunked', r='r1', u='u1'), dict(op='Write', r='r1', u='u1', data=[1])]
+PROGS_CC = dict(a=[dict(op='Commit', r='r1', u='u1', dd='b1')], b=[dict(op='Write', r='r1', u='u1', data=[2])],
+                c=[dict(op='Commit', r='r1', u='u1', dd='b2')],
+                r=[dict(op='GetBlob', r='r1', c='b1'), dict(op='GetBlob', r='r1', c='b2')])
+FINAL_CC = [dict(op='GetBlob', r='r1', c='b1'), dict(op='GetBlob', r='r1', c='b2'), dict(op='UpSize', r='r1', u='u1')]
 
 
 def run_conc(ctx, vh, args, racelog=None):
@@ -35,6 +41,8 @@ def run(ctx):
                      what='current code shape (GetTag one step, commit snapshots): Linearizable, StoredMatchesKey, TagNeverFalselyMissing over all interleavings of re-tag+delete, GetTag, Commit, Write')
     vlib.model_check(ctx, 'OciMemConcMC.tla', 'OciMemConcMC_k3.cfg', workers=4,
                      what='with read-back of the committed blob; the reference lets Commit take effect in two steps (known finding K3)')
+    vlib.model_check(ctx, 'OciMemConcMC.tla', 'OciMemConcMC_cc.cfg', workers=4,
+                     what='two committers on one upload with a write in between (commit lock held across check and store)')
     # 2. every schedule of that model replayed on the real ocimem with the yield hooks as gates
     scheds, _ = vlib.generate(ctx, 'OciMemConcMC.tla', 'OciMemConcGen.cfg', workers=1, timeout=600)
     if not scheds:
@@ -43,11 +51,17 @@ def run(ctx):
         step = max(1, len(scheds) // 160)
         off = ctx.seed % step
         scheds = scheds[off::step]
+    scheds_cc, _ = vlib.generate(ctx, 'OciMemConcMC.tla', 'OciMemConcGenCC.cfg', workers=1, timeout=600)
+    if not scheds_cc:
+        raise vlib.Machinery('no two-committer schedules generated')
     sd = ctx.sub('sched')
     sp = os.path.join(sd, 'sched.jsonl')
     with open(sp, 'w') as f:
         for s in scheds:
             f.write(json.dumps(dict(imm=False, setup=SETUP, progs=PROGS, sched=s['sched'], final=FINAL)) + '\n')
+        for s in scheds_cc:
+            f.write(json.dumps(dict(imm=False, setup=SETUP_CC, progs=PROGS_CC, sched=s['sched'], final=FINAL_CC)) + '\n')
+    scheds = scheds + scheds_cc
     vh = vlib.build_harness(ctx)
     td = ctx.sub('traces')
     t_dir = os.path.join(td, 'directed.ndjson')
